@@ -191,6 +191,42 @@ func shrink(r *designRun, d *dg.Design, sig string, budget int) *dg.Design {
 	return cur
 }
 
+// learnIdents runs every combination of the identifier stream on its own and writes the table of
+// the ones that do not generate / build (maintenance command, not part of a check run).
+func learnIdents(file, out, repo, stubs string) {
+	identsKnown = map[string]bool{}
+	ids := append(collectIdentifiers(repo), "isvc")
+	var all []DCase
+	var keys []string
+	idx := 0
+	for _, id := range ids {
+		for _, kind := range identKinds {
+			idx++
+			all = append(all, identSingle(idx, id, kind))
+			keys = append(keys, identKey(id, kind))
+		}
+	}
+	var bad []string
+	for lo := 0; lo < len(all); lo += 400 {
+		hi := lo + 400
+		if hi > len(all) {
+			hi = len(all)
+		}
+		vs, err := runBatch(all[lo:hi], filepath.Join(out, "learn"), repo, stubs, false)
+		must(err)
+		for i, v := range vs {
+			if v.Stage != "ok" {
+				bad = append(bad, fmt.Sprintf("\t%q: true, // %s: %s", keys[lo+i], v.Stage, strings.ReplaceAll(firstLines(v.Msg, 1), "\n", " ")))
+			}
+		}
+		fmt.Printf("%d/%d combinations, %d failing\n", hi, len(all), len(bad))
+	}
+	os.RemoveAll(filepath.Join(out, "learn"))
+	sort.Strings(bad)
+	src := "package main\n\n// identsKnown: (identifier/kind) combinations of the identifier stream that do not compile on\n// the unchanged tree. Written by `c01 -learn-idents`; each entry is re-demonstrated on every run.\nvar identsKnown = map[string]bool{\n" + strings.Join(bad, "\n") + "\n}\n"
+	must(os.WriteFile(file, []byte(src), 0o644))
+}
+
 func main() {
 	seed := flag.Uint64("seed", 1, "")
 	tier := flag.String("tier", "quick", "")
@@ -207,9 +243,14 @@ func main() {
 	wFrom := flag.Int("from", 0, "internal")
 	wExample := flag.Bool("example", true, "internal")
 	flag.BoolVar(&evalOnly, "evalonly", false, "internal")
+	learn := flag.String("learn-idents", "", "maintenance: run every (identifier, kind) combination alone and write the table of those that fail to this Go file")
 	flag.Parse()
 	if *worker {
 		workerMain(*wCases, *wRoot, *wShard, *wShards, *wFrom, *wExample)
+		return
+	}
+	if *learn != "" {
+		learnIdents(*learn, *out, *repo, *stubs)
 		return
 	}
 	t0 := time.Now()
@@ -306,6 +347,15 @@ func main() {
 			packMembers[pk.Name] = clean[lo:hi]
 			cases = append(cases, pk)
 		}
+		// identifier stream
+		ids := append(collectIdentifiers(*repo), "isvc")
+		isingles, ipacks, imembers := identStream(ids, 10)
+		cases = append(cases, isingles...)
+		for _, pk := range ipacks {
+			packMembers[pk.Name] = imembers[pk.Name]
+			cases = append(cases, pk)
+		}
+		res.Extra["identifiers"] = map[string]any{"scanned": len(ids), "kinds": len(identKinds), "known_failing_combinations": len(isingles), "packs": len(ipacks), "names": ids}
 		res.Extra["hostile"] = map[string]int{"designs": len(hs), "accepted_with_finding_feature": flagged, "accepted_clean_packed": len(clean), "packs": len(packMembers)}
 		os.RemoveAll(filepath.Join(*out, "hostile-eval"))
 	}
@@ -332,7 +382,7 @@ func main() {
 	{
 		var again []DCase
 		for i, c := range cases {
-			if c.Stream == "hostile-pack" && verdicts[i].Stage != "ok" {
+			if strings.HasSuffix(c.Stream, "-pack") && verdicts[i].Stage != "ok" {
 				again = append(again, packMembers[c.Name]...)
 			}
 		}
@@ -353,7 +403,7 @@ func main() {
 				var kc []DCase
 				var kv []Verdict
 				for i, c := range cases {
-					if c.Stream == "hostile-pack" && verdicts[i].Stage != "ok" {
+					if strings.HasSuffix(c.Stream, "-pack") && verdicts[i].Stage != "ok" {
 						continue
 					}
 					kc, kv = append(kc, c), append(kv, verdicts[i])
@@ -378,7 +428,7 @@ func main() {
 			res.Count("feature=" + f)
 		}
 		rec := caseRec{Stream: c.Stream, Name: c.Name, Stage: v.Stage}
-		if c.Stream != "witness" && c.Stream != "hostile" {
+		if c.Stream != "witness" && c.Stream != "hostile" && c.Stream != "ident" {
 			if ev := envelopeViolations(c.Design); len(ev) > 0 && c.Stream != "replay" {
 				res.Count("outside_envelope[" + c.Stream + "]")
 				rec.Features = ev
@@ -403,7 +453,7 @@ func main() {
 			sig := classify(c.Design, v)
 			rec.Signature = sig
 			d := c.Design
-			if strings.HasPrefix(sig, "unlisted:") && c.Stream != "witness" && c.Stream != "hostile" && shrunk < 2 {
+			if strings.HasPrefix(sig, "unlisted:") && c.Stream != "witness" && c.Stream != "hostile" && c.Stream != "ident" && shrunk < 2 {
 				shrunk++
 				d = shrink(run, c.Design, sig, 24)
 			}
